@@ -863,15 +863,15 @@ def run(ctx: core.Check):
                                                  ["arith", op, xi, yi]], False], ["arith", op, xi, yi]]
                 add_world("operators", {"actors": [{"id": 0, "kind": "thread", "parent": None, "prog": prog}]}, 1)
     # 3. random single-actor nesting to depth 4
-    for _ in range(ctx.scale(150, 3000)):
+    for _ in range(ctx.scale(150, 2000)):
         sync = rng.random() < 0.5
         prog = deep_prog(rng, pool, sync, 4) if rng.random() < 0.3 else gen_prog(rng, pool, [rng.randint(6, 16)], sync, p_block=0.55)
         ensure_nonempty(prog)
         set_prop(rng, prog)
         add_world("nest", {"actors": [{"id": 0, "kind": "thread" if sync else "loop", "parent": None, "prog": prog}]}, 1)
     # 4. interleavings
-    n_worlds = ctx.scale(135, 900)
-    cap = ctx.scale(36, 100)
+    n_worlds = ctx.scale(135, 500)
+    cap = ctx.scale(36, 80)
     for wi in range(n_worlds):
         stream = ["threads", "tasks", "mixed"][wi % 3]
         shape = rng.choice(SHAPES[stream])
